@@ -330,6 +330,28 @@ Section Oracles.
     end.
   Definition enum_member_int (v : str) (neg : bool) (fb : N) : option str :=
     member_tail_int fb (enum_int_base v neg fb).
+  (* ---------- clean_auto_generated_operation_id (FastAPI ids: <handler>_<path>_<method>) ----------
+     s[:-k] (k >= 1) = firstn (length s - k) s;  str.endswith on the lower-cased text, slicing on the original. *)
+  Definition strip_char (ch : N) (s : str) : str :=
+    rev (dropwhile (fun c => c =? ch) (rev (dropwhile (fun c => c =? ch) s))).
+  Definition drop_last (k : nat) (s : str) : str := firstn (length s - k) s.
+  Definition norm_path (path : str) : str :=
+    map lower_ascii (norm_us (map (fun c => if is_ident_char c then c else 95)
+                                  (filter (fun c => negb (is_brace c)) (strip_char 47 path)))).
+  Definition clean_op_id (op_id method path : str) : str :=
+    let msuf := 95 :: py_lower method in
+    if negb (suffixb msuf (py_lower op_id)) then op_id
+    else
+      let without := drop_last (length msuf) op_id in
+      match norm_path path with
+      | [] => op_id
+      | np =>
+          let psuf := 95 :: np in
+          if suffixb psuf (py_lower without)
+          then match drop_last (length psuf) without with [] => op_id | prefix => prefix end
+          else op_id
+      end.
+
   (* guard F20h: no non-ASCII code point of the tag is a word character (for the tag sanitisers, which keep them) *)
   Definition no_foreign_word (s : str) : bool := forallb (fun c => is_ascii c || negb (word c)) s.
 End Oracles.
